@@ -118,6 +118,10 @@ class Handshake(Job):
             check(wrote_go == self.sender, "go written by the wrong role / not written by the sender")
             check(o._winner is c if self.sender else True, "sender did not record the winner")
             eng().note("nt:selected")
+        elif c.state == "hung up" and res == ["ok"] and len(inbound) > len(exp):
+            # negotiation had succeeded; the bytes after the handshake were record data that failed to parse/decrypt (C06's subject)
+            check(sym_and(agrees, complete), "negotiation succeeded although the handshake bytes deviate")
+            eng().note("nt:selected-then-bad-record")
         elif c.state == "hung up":
             check(sym_not(agrees), "hung up although every byte so far matches")
             check(c.transport.lost > 0, "hung up without loseConnection")
@@ -168,6 +172,8 @@ class Handshake(Job):
             if res != ["ok"]:
                 return "%s: negotiation result %r" % (who, res)
             return None
+        if c.state == "hung up" and res[:1] == ["ok"] and len(inbound) > len(exp):
+            return None if (agrees and complete) else "%s negotiated successfully on a deviating handshake %r" % (who, inbound)
         if wrote_go:
             return "%s wrote go in state %r on inbound %r" % (who, c.state, inbound)
         if c.state == "hung up":
@@ -451,7 +457,7 @@ def jobs(tier):
                 J.append(Handshake(sender, relay, n, False))
             for n in ((2, 3, 4) if thorough else (2, 3)):
                 J.append(Handshake(sender, relay, n, True))
-    k = 7 if thorough else 4
+    k = 5 if thorough else 4
     for sender in (True, False):
         J.append(Contenders(sender, 2, k, False, False))
         J.append(Contenders(sender, 1, k, True, False))
@@ -459,6 +465,7 @@ def jobs(tier):
         if thorough:
             J.append(Contenders(sender, 2, k - 1, True, True))
             J.append(Contenders(sender, 3, k - 1, False, False))
+            J.append(Contenders(sender, 1, k + 1, False, False))
     return J
 
 
